@@ -30,7 +30,8 @@ type c09State struct {
 	sendsMin int  // fewest channel operations over the joined paths
 	sends    int  // most channel operations performed on a path (0,1,2+)
 	closedOK bool // the closed flag was observed false on this path
-	locked   bool
+	locked   bool // the mutex is held on every path reaching here
+	mayHold  bool // the mutex may be held (some path took it and has not released it)
 }
 
 func c09Run(r *Run) {
@@ -49,11 +50,18 @@ func c09Run(r *Run) {
 		return
 	}
 	var fChan, fClosed *types.Var
+	signalChans := map[*types.Var]bool{}
 	hasMutex, hasOnce := false, false
 	for i := 0; i < st.NumFields(); i++ {
 		f := st.Field(i)
-		if _, ok := f.Type().Underlying().(*types.Chan); ok && fChan == nil {
-			fChan = f
+		if ct, ok := f.Type().Underlying().(*types.Chan); ok {
+			if isNamed(ct.Elem(), modPath+"/data", "Value") {
+				if fChan == nil {
+					fChan = f
+				}
+			} else {
+				signalChans[f] = true // e.g. a done channel closed by Close
+			}
 		}
 		if b, ok := f.Type().Underlying().(*types.Basic); ok && b.Kind() == types.Bool {
 			fClosed = f
@@ -84,20 +92,30 @@ func c09Run(r *Run) {
 	}
 	// helpers of Channel that hand out the underlying chan: every return is nil or the chan field;
 	// nilWhenClosed if a branch on the closed flag returns nil
-	chanHelper := map[*types.Func]bool{}
+	chanHelper := map[*types.Func]int{} // helper → index of the result that is the data chan
 	nilWhenClosed := map[*types.Func]bool{}
 	for _, fd := range funcDecls(pkg) {
-		if recvTypeName(fd) != "Channel" || fd.Type.Results == nil || len(fd.Type.Results.List) != 1 {
-			continue
-		}
-		if _, ok := info.TypeOf(fd.Type.Results.List[0].Type).Underlying().(*types.Chan); !ok {
+		if recvTypeName(fd) != "Channel" || fd.Type.Results == nil {
 			continue
 		}
 		f, _ := info.Defs[fd.Name].(*types.Func)
+		if f == nil {
+			continue
+		}
+		sig := f.Type().(*types.Signature)
+		idx := -1
+		for i := 0; i < sig.Results().Len(); i++ {
+			if ct, ok := sig.Results().At(i).Type().Underlying().(*types.Chan); ok && isNamed(ct.Elem(), modPath+"/data", "Value") {
+				idx = i
+			}
+		}
+		if idx < 0 {
+			continue
+		}
 		all := true
 		ast.Inspect(fd.Body, func(n ast.Node) bool {
-			if rs, ok := n.(*ast.ReturnStmt); ok && len(rs.Results) == 1 {
-				if exprStr(rs.Results[0]) != "nil" && fieldOf(rs.Results[0]) != fChan {
+			if rs, ok := n.(*ast.ReturnStmt); ok && len(rs.Results) == sig.Results().Len() {
+				if exprStr(rs.Results[idx]) != "nil" && fieldOf(rs.Results[idx]) != fChan {
 					all = false
 				}
 			}
@@ -111,7 +129,7 @@ func c09Run(r *Run) {
 				})
 				if mentions {
 					for _, st := range is.Body.List {
-						if rs, ok := st.(*ast.ReturnStmt); ok && len(rs.Results) == 1 && exprStr(rs.Results[0]) == "nil" {
+						if rs, ok := st.(*ast.ReturnStmt); ok && len(rs.Results) == sig.Results().Len() && exprStr(rs.Results[idx]) == "nil" {
 							nilWhenClosed[f] = true
 						}
 					}
@@ -119,41 +137,77 @@ func c09Run(r *Run) {
 			}
 			return true
 		})
-		if all && f != nil {
-			chanHelper[f] = true
+		if all {
+			chanHelper[f] = idx
 		}
 	}
 	// local aliases of the chan, per function: ch := c.channel / ch := c.open()
 	chanAlias := map[types.Object]bool{}
 	closedNilAlias := map[types.Object]bool{} // alias that is nil when the channel is closed
+	closedCopy := map[types.Object]bool{}     // local copy of the closed flag
+	signalAlias := map[types.Object]bool{}    // local copy of a signal (done) channel
 	for _, fd := range funcDecls(pkg) {
 		if recvTypeName(fd) != "Channel" {
 			continue
 		}
 		ast.Inspect(fd.Body, func(n ast.Node) bool {
 			as, ok := n.(*ast.AssignStmt)
-			if !ok || len(as.Lhs) != 1 || len(as.Rhs) != 1 {
-				return true
-			}
-			id, ok := as.Lhs[0].(*ast.Ident)
 			if !ok {
 				return true
 			}
-			o := info.Defs[id]
-			if o == nil {
-				o = info.Uses[id]
-			}
-			if o == nil {
+			if len(as.Rhs) == 1 && len(as.Lhs) > 1 {
+				// ch, done := c.open()
+				if c, ok := ast.Unparen(as.Rhs[0]).(*ast.CallExpr); ok {
+					if f, ok := calleeOf(info, c).(*types.Func); ok {
+						if idx, ok := chanHelper[f]; ok && idx < len(as.Lhs) {
+							if id, ok := as.Lhs[idx].(*ast.Ident); ok {
+								o := info.Defs[id]
+								if o == nil {
+									o = info.Uses[id]
+								}
+								if o != nil {
+									chanAlias[o] = true
+									if nilWhenClosed[f] {
+										closedNilAlias[o] = true
+									}
+								}
+							}
+						}
+					}
+				}
 				return true
 			}
-			if fieldOf(as.Rhs[0]) == fChan {
-				chanAlias[o] = true
+			if len(as.Lhs) != len(as.Rhs) {
+				return true
 			}
-			if c, ok := ast.Unparen(as.Rhs[0]).(*ast.CallExpr); ok {
-				if f, ok := calleeOf(info, c).(*types.Func); ok && chanHelper[f] {
+			for i := range as.Lhs {
+				id, ok := as.Lhs[i].(*ast.Ident)
+				if !ok {
+					continue
+				}
+				o := info.Defs[id]
+				if o == nil {
+					o = info.Uses[id]
+				}
+				if o == nil {
+					continue
+				}
+				if fieldOf(as.Rhs[i]) == fChan {
 					chanAlias[o] = true
-					if nilWhenClosed[f] {
-						closedNilAlias[o] = true
+				}
+				if f := fieldOf(as.Rhs[i]); f != nil && signalChans[f] {
+					signalAlias[o] = true
+				}
+				if fClosed != nil && fieldOf(as.Rhs[i]) == fClosed {
+					closedCopy[o] = true
+				}
+				if c, ok := ast.Unparen(as.Rhs[i]).(*ast.CallExpr); ok {
+					if _, isH := chanHelper[f0(info, c)]; isH {
+						f := f0(info, c)
+						chanAlias[o] = true
+						if nilWhenClosed[f] {
+							closedNilAlias[o] = true
+						}
 					}
 				}
 			}
@@ -166,6 +220,24 @@ func c09Run(r *Run) {
 		}
 		if id, ok := ast.Unparen(e).(*ast.Ident); ok {
 			return chanAlias[info.Uses[id]]
+		}
+		return false
+	}
+	isSignalExpr := func(e ast.Expr) bool {
+		if f := fieldOf(e); f != nil && signalChans[f] {
+			return true
+		}
+		if id, ok := ast.Unparen(e).(*ast.Ident); ok {
+			o := info.Uses[id]
+			if signalAlias[o] {
+				return true
+			}
+			// a non-data chan result of a chan helper
+			if v, ok := o.(*types.Var); ok {
+				if ct, ok := v.Type().Underlying().(*types.Chan); ok && !isNamed(ct.Elem(), modPath+"/data", "Value") {
+					return true
+				}
+			}
 		}
 		return false
 	}
@@ -236,6 +308,33 @@ func c09Run(r *Run) {
 		checked bool
 		locked  bool
 	}
+	dataChanClosed := false // some method closes the data channel itself (then a racing send can panic)
+	for _, fd := range funcDecls(pkg) {
+		if recvTypeName(fd) != "Channel" {
+			continue
+		}
+		ast.Inspect(fd.Body, func(n ast.Node) bool {
+			if c, ok := n.(*ast.CallExpr); ok {
+				if id, ok := ast.Unparen(c.Fun).(*ast.Ident); ok && id.Name == "close" && len(c.Args) == 1 && isChanExpr(c.Args[0]) {
+					dataChanClosed = true
+				}
+			}
+			return true
+		})
+	}
+	var leaks []token.Pos // exits reached with the mutex possibly held and no deferred unlock
+	deferredUnlock := func(fd *ast.FuncDecl) bool {
+		found := false
+		ast.Inspect(fd.Body, func(n ast.Node) bool {
+			if d, ok := n.(*ast.DeferStmt); ok {
+				if se, ok := ast.Unparen(d.Call.Fun).(*ast.SelectorExpr); ok && (se.Sel.Name == "Unlock" || se.Sel.Name == "RUnlock") {
+					found = true
+				}
+			}
+			return true
+		})
+		return found
+	}
 	analyse := func(fd *ast.FuncDecl) ([]exitRec, []opRec, []token.Pos) {
 		var exits []exitRec
 		var ops []opRec
@@ -253,6 +352,7 @@ func c09Run(r *Run) {
 			}
 			n.closedOK = x.closedOK && y.closedOK
 			n.locked = x.locked && y.locked
+			n.mayHold = x.mayHold || y.mayHold
 			return &n
 		}
 		h.Equal = func(a, b State) bool { return *a.(*c09State) == *b.(*c09State) }
@@ -263,6 +363,9 @@ func c09Run(r *Run) {
 			}
 			if isClosedNilTest(e, truth) {
 				s.closedOK = true // the helper that produced the alias answers nil for a closed channel
+			}
+			if id, ok := ast.Unparen(e).(*ast.Ident); ok && closedCopy[info.Uses[id]] && !truth {
+				s.closedOK = true // a copy of the flag taken earlier was false
 			}
 			// atomic: c.closed.Load()
 			if c, ok := ast.Unparen(e).(*ast.CallExpr); ok {
@@ -286,16 +389,21 @@ func c09Run(r *Run) {
 					ops = append(ops, opRec{x.Pos(), "receive", s.closedOK, s.locked})
 				}
 			case *ast.CallExpr:
-				if id, ok := ast.Unparen(x.Fun).(*ast.Ident); ok && id.Name == "close" && len(x.Args) == 1 && isChanExpr(x.Args[0]) {
+				if id, ok := ast.Unparen(x.Fun).(*ast.Ident); ok && id.Name == "close" && len(x.Args) == 1 && (isChanExpr(x.Args[0]) || isSignalExpr(x.Args[0])) {
 					ops = append(ops, opRec{x.Pos(), "close", s.closedOK, s.locked})
+					if isChanExpr(x.Args[0]) {
+						dataChanClosed = true
+					}
 				}
 				if se, ok := ast.Unparen(x.Fun).(*ast.SelectorExpr); ok {
 					if isNamed(info.TypeOf(se.X), "sync", "Mutex") || isNamed(info.TypeOf(se.X), "sync", "RWMutex") {
 						switch se.Sel.Name {
 						case "Lock", "RLock":
 							s.locked = true
+							s.mayHold = true
 						case "Unlock", "RUnlock":
 							s.locked = false
+							s.mayHold = false
 						}
 					}
 				}
@@ -338,10 +446,16 @@ func c09Run(r *Run) {
 				res = exprStr(rs.Results[len(rs.Results)-1])
 			}
 			exits = append(exits, exitRec{rs.Pos(), res, s.sendsMin, s.sends, s.closedOK})
+			if s.mayHold && !deferredUnlock(fd) {
+				leaks = append(leaks, rs.Pos())
+			}
 		}
 		h.End = func(st State) {
 			s := st.(*c09State)
 			exits = append(exits, exitRec{fd.Body.Rbrace, "", s.sendsMin, s.sends, s.closedOK})
+			if s.mayHold && !deferredUnlock(fd) {
+				leaks = append(leaks, fd.Body.Rbrace)
+			}
 		}
 		WalkFunc(h, fd.Body, &c09State{})
 		return exits, ops, flagAccess
@@ -427,6 +541,8 @@ func c09Run(r *Run) {
 			key := funcKey(pkg, send) + "#send-vs-concurrent-close"
 			if hasRecover(send) {
 				r.ok(key, o.pos, "a deferred recover turns a send on a concurrently closed channel into a failure result")
+			} else if !dataChanClosed {
+				r.ok(key, o.pos, "the data channel itself is never closed (closing is signalled on a separate channel), so a send cannot hit a closed channel")
 			} else {
 				r.bad(key, o.pos, "check-then-send: a Close between the closed test and the send makes the send panic ('send on closed channel'); no recover, and a lock cannot be held across a blocking send")
 			}
@@ -466,10 +582,69 @@ func c09Run(r *Run) {
 			}
 			return true
 		})
+		if !commaOK && !dataChanClosed {
+			// the data channel is never closed: "no value" may be reported only for an uninitialised
+			// channel or after a non-blocking receive found the buffer empty (default clause of a select
+			// that also tries to receive from the data channel)
+			drained := true
+			nfalse := 0
+			var visit func(n ast.Node, inDrainDefault, inNilTest bool)
+			visit = func(n ast.Node, inDrainDefault, inNilTest bool) {
+				ast.Inspect(n, func(m ast.Node) bool {
+					if m == n {
+						return true
+					}
+					switch x := m.(type) {
+					case *ast.SelectStmt:
+						triesData := false
+						for _, c := range x.Body.List {
+							cc := c.(*ast.CommClause)
+							if cc.Comm != nil {
+								ast.Inspect(cc.Comm, func(k ast.Node) bool {
+									if u, ok := k.(*ast.UnaryExpr); ok && u.Op == token.ARROW && isChanExpr(u.X) {
+										triesData = true
+									}
+									return true
+								})
+							}
+						}
+						for _, c := range x.Body.List {
+							cc := c.(*ast.CommClause)
+							for _, st := range cc.Body {
+								visit(&ast.BlockStmt{List: []ast.Stmt{st}}, cc.Comm == nil && triesData, inNilTest)
+							}
+						}
+						return false
+					case *ast.IfStmt:
+						nilTest := false
+						if be, ok := ast.Unparen(x.Cond).(*ast.BinaryExpr); ok && be.Op == token.EQL && exprStr(be.Y) == "nil" && isChanExpr(be.X) {
+							nilTest = true
+						}
+						visit(x.Body, inDrainDefault, inNilTest || nilTest)
+						if x.Else != nil {
+							visit(x.Else, inDrainDefault, inNilTest)
+						}
+						return false
+					case *ast.ReturnStmt:
+						if len(x.Results) == 2 && exprStr(x.Results[1]) == "false" {
+							nfalse++
+							if !inDrainDefault && !inNilTest {
+								drained = false
+							}
+						}
+					}
+					return true
+				})
+			}
+			visit(recv.Body, false, false)
+			if drained && nfalse > 0 {
+				commaOK = true
+			}
+		}
 		if commaOK {
-			r.ok(funcKey(pkg, recv)+"#comma-ok", recv.Pos(), "two-result receive distinguishes a closed, drained channel from a value")
+			r.ok(funcKey(pkg, recv)+"#comma-ok", recv.Pos(), "Receive reports 'no value' only when the channel cannot deliver one (two-result receive, or a drained non-blocking receive on a never-closed data channel)")
 		} else {
-			r.bad(funcKey(pkg, recv)+"#comma-ok", recv.Pos(), "Receive does not use the two-result receive: after close a zero value is indistinguishable from data")
+			r.bad(funcKey(pkg, recv)+"#comma-ok", recv.Pos(), "Receive can report 'closed, no value' without having established that no value is left (no two-result receive, and not every such answer follows a drained non-blocking receive): buffered values are lost after close, or a zero value is indistinguishable from data")
 		}
 	}
 	if cl := methods["Close"]; cl == nil {
@@ -586,6 +761,14 @@ func c09Run(r *Run) {
 			r.bad(key, early, "the script-level method returns a result without having called Channel."+op+": e.g. a receive that answers null for a closed channel without draining what is buffered")
 		}
 	}
+	r.curRule = "C09-SAFE"
+	if hasMutex {
+		if len(leaks) == 0 {
+			r.ok("Channel#mutex-released-on-every-exit", ch.Obj().Pos(), "no method of Channel returns with its mutex held")
+		} else {
+			r.bad("Channel#mutex-released-on-every-exit", leaks[0], fmt.Sprintf("a method of Channel returns with the mutex still held on some path (%d exit(s)): every later operation on this channel blocks forever", len(leaks)))
+		}
+	}
 	r.curRule = "C09-SYNC"
 	if fClosed == nil {
 		r.ok("Channel.closed", ch.Obj().Pos(), "no plain boolean closed flag")
@@ -596,4 +779,11 @@ func c09Run(r *Run) {
 	} else {
 		r.bad("Channel.closed", allFlagAccess[0], fmt.Sprintf("the closed flag is a plain bool read and written by concurrent senders, receivers and closers with no lock or atomic (%d unsynchronised accesses): a data race by construction", len(allFlagAccess)))
 	}
+}
+
+func isChanHelper(m map[*types.Func]int, f *types.Func) bool { _, ok := m[f]; return ok }
+
+func f0(info *types.Info, c *ast.CallExpr) *types.Func {
+	f, _ := calleeOf(info, c).(*types.Func)
+	return f
 }
